@@ -30,6 +30,8 @@ Definition node_safe (b : bufs) (sh : shape) (d : nat) (nd : list Z * Z) : bool 
       ((usize sh <=? zget (offsets b) j 0 + j) && (usize sh <=? psize b sh - 1)))
    else true).
 
+(* + max_direct_descendants <= V + 1: `srange = vrange[:S]` is cut from torch.arange(V + 1) *)
 Definition safe_okb (b : bufs) (sh : shape) : bool :=
   lens_ok b sh && Nat.leb 1 (order sh) && (nroots sh <=? zlen (logps b))
+  && (Z.of_nat (maxdesc sh) <=? vocab sh + 1)
   && forallb (fun d => forallb (node_safe b sh d) (level b sh d)) (seq 0 (order sh)).
